@@ -338,6 +338,24 @@ static int __check_key_bits(jwt_t *jwt)
 	return 1; // LCOV_EXCL_LINE
 }
 
+/* HMAC algs use the raw octets of an "oct" key, all others use the key object
+ * of the crypto provider. Both share storage in jwk_item_t, so make sure we
+ * never hand one to code expecting the other. */
+static int __check_key_type(jwt_t *jwt)
+{
+	int is_oct = (jwt->key->kty == JWK_KEY_TYPE_OCT);
+
+	switch (jwt->alg) {
+	case JWT_ALG_HS256:
+	case JWT_ALG_HS384:
+	case JWT_ALG_HS512:
+		return is_oct ? 0 : 1;
+
+	default:
+		return is_oct ? 1 : 0;
+	}
+}
+
 static int sign_sha_hmac(jwt_t *jwt, char **out, unsigned int *len,
 			 const char *str, unsigned int str_len)
 {
@@ -407,7 +425,7 @@ int jwt_sign(jwt_t *jwt, char **out, unsigned int *len, const char *str,
 	case JWT_ALG_HS256:
 	case JWT_ALG_HS384:
 	case JWT_ALG_HS512:
-		if (__check_hmac(jwt))
+		if (__check_hmac(jwt) || __check_key_type(jwt))
 			return 1;
 		if (sign_sha_hmac(jwt, out, len, str, str_len)) {
 			/* There's not really a way to induce failure here,
@@ -442,6 +460,10 @@ int jwt_sign(jwt_t *jwt, char **out, unsigned int *len, const char *str,
 	case JWT_ALG_EDDSA:
 		if (__check_key_bits(jwt))
 			return 1;
+		if (__check_key_type(jwt)) {
+			jwt_write_error(jwt, "Key type does not match algorithm");
+			return 1;
+		}
 		if (jwt_ops->sign_sha_pem(jwt, out, len, str, str_len)) {
 			jwt_write_error(jwt, "Token failed signing");
 			return 1;
@@ -512,6 +534,11 @@ jwt_t *jwt_verify_sig(jwt_t *jwt, const char *head, unsigned int head_len,
 	case JWT_ALG_EDDSA:
 		if (__check_key_bits(jwt))
 			break;
+
+		if (__check_key_type(jwt)) {
+			jwt_write_error(jwt, "Key type does not match algorithm");
+			break;
+		}
 
 		sig = jwt_base64uri_decode(sig_b64, &sig_len);
 		if (sig == NULL) {
